@@ -126,6 +126,14 @@ func (r *scriptReader) Read(p []byte) (int, error) {
 	return n, nil
 }
 
+// valueReader is a legal io.Reader whose dynamic type is NOT comparable (a struct holding a slice, passed by value)
+type valueReader struct {
+	r   *scriptReader
+	pad []byte
+}
+
+func (v valueReader) Read(p []byte) (int, error) { return v.r.Read(p) }
+
 func parseScript(s string) *scriptReader {
 	r := &scriptReader{}
 	if s == "-" {
@@ -269,7 +277,11 @@ func runOp(f []string) string {
 		return guard(func() string {
 			swapMu.Lock()
 			defer swapMu.Unlock()
-			old := bip39.VerifSwapRandSource(rd)
+			var src io.Reader = rd
+			if len(f[3])%3 == 0 { // every third script is delivered through a reader of an uncomparable type
+				src = valueReader{r: rd, pad: []byte{1}}
+			}
+			old := bip39.VerifSwapRandSource(src)
 			defer bip39.VerifSwapRandSource(old)
 			s, err := bip39.NewMnemonic(atoi(f[1]), lang(f[2]))
 			rs := "0"
@@ -316,6 +328,15 @@ func runOp(f []string) string {
 		})
 	case "L":
 		return guard(func() string { return "ok " + hx([]byte(lang(f[1]).String())) })
+	case "LU": // LU <uint64>: the Language with this bit pattern (whatever its underlying integer type); num = its value by %d
+		u, err := strconv.ParseUint(f[1], 10, 64)
+		if err != nil {
+			panic("bad uint in case file: " + f[1])
+		}
+		return guard(func() string {
+			l := bip39.Language(u)
+			return fmt.Sprintf("ok %s num=%s", hx([]byte(l.String())), fmt.Sprintf("%d", l))
+		})
 	// ---- dependency streams
 	case "H":
 		h := sha256.Sum256(unhex(f[1]))
@@ -526,6 +547,8 @@ func main() {
 				sem <- struct{}{}
 				defer func() { <-sem }()
 				cmd := exec.Command(self, "-one")
+				// one P: what a sync.Pool or per-P cache hands back between calls of a history is deterministic
+				cmd.Env = append(os.Environ(), "GOMAXPROCS=1")
 				cmd.Stdin = strings.NewReader(l + "\n")
 				outb, err := cmd.Output()
 				if err != nil {
